@@ -55,7 +55,8 @@ impl FrameCase {
         let exe = std::env::current_exe().unwrap().parent().unwrap().join("chunk_engine");
         let rt = tokio::runtime::Builder::new_current_thread().enable_all().build().unwrap();
         let steps = self.steps.clone();
-        let (results, shut_ok) = rt.block_on(async move {
+        // a panic inside the driver is an answer like any other (`panic`), not the end of the harness
+        let outcome = std::panic::catch_unwind(std::panic::AssertUnwindSafe(|| rt.block_on(async move {
             let mut cmd = tokio::process::Command::new(exe);
             cmd.arg(&script).arg(&log);
             let mut drv = match ExternalDriver::connect(cmd).await {
@@ -95,7 +96,11 @@ impl FrameCase {
                 tokio::time::timeout(Duration::from_millis(3000), drv.shutdown()).await.is_ok()
             };
             (results, shut)
-        });
+        })));
+        let (results, shut_ok) = match outcome {
+            Ok(x) => x,
+            Err(_) => (vec!["panic".to_string()], false),
+        };
         let logtext = std::fs::read_to_string(dir.join("engine.log")).unwrap_or_default();
         let reqs: Vec<&str> = logtext.lines().filter_map(|l| l.strip_prefix("req ")).collect();
         let saw_eof = logtext.lines().any(|l| l == "eof");
